@@ -10,7 +10,7 @@ The covariance formulae of the individual kernels are real-valued functions and 
 from __future__ import annotations
 
 import ast
-from typing import List
+from typing import List, Optional
 
 from ..cfg import enumerate_paths, RETURN
 from ..index import (AnalysisError, ClassInfo, FuncInfo, ProgramIndex, body_without_docstring, calls_in, chain, norm, src)
@@ -50,6 +50,83 @@ def _member_call_ok(call: ast.AST, member_names, fi: FuncInfo) -> List[str]:
     if fi.node.args.kwarg and None not in kw:
         probs.append("**%s is not forwarded to the member kernel" % fi.node.args.kwarg.arg)
     return probs
+
+
+def fold_form(fi: FuncInfo, members: str, op, opname: str, allow_forward: bool):
+    """Is the value returned on every path the `op`-fold of member(x1, x2, ...) over all of self.<members>?  Decided on the
+    inlined return expression of each path (loops taken 0 or 1 times): a tree of `op` nodes whose leaves are the neutral element
+    or a member term; on the path that takes every loop the leaves must cover the whole list (loop over all, or first + rest).
+    -> (problems, number of member terms seen)"""
+    from ..symbolic import inline, walk_paths
+    probs: List[str] = []
+    nterms = 0
+    sn = fi.params[0]
+    lst = "%s.%s" % (sn, members)
+
+    def leaves(e):
+        e = _strip(e)
+        if isinstance(e, ast.IfExp):
+            # `ZeroLinearOperator() if not diag else 0`: both alternatives must be leaves of the same kind
+            return leaves(e.body) + leaves(e.orelse)
+        if isinstance(e, ast.BinOp):
+            if isinstance(e.op, op):
+                return leaves(e.left) + leaves(e.right)
+            probs.append("members are combined with `%s`, not with %s" % (src(e)[:50], opname))
+            return []
+        if isinstance(e, ast.Call) and isinstance(e.func, ast.Attribute) and e.func.attr in ({"add", "add_", "__add__"} if op is ast.Add else {"mul", "mul_", "__mul__"}) and len(e.args) == 1:
+            return leaves(e.func.value) + leaves(e.args[0])
+        return [e]
+
+    def member_kind(f) -> Optional[str]:
+        """which members does callee expression f denote: 'all' | 'rest' | 'first'"""
+        if isinstance(f, ast.Call) and isinstance(f.func, ast.Name) and f.func.id == "__iter_item__" and f.args:
+            it = f.args[0]
+            if chain(it) == lst:
+                return "all"
+            if isinstance(it, ast.Subscript) and chain(it.value) == lst and isinstance(it.slice, ast.Slice) and isinstance(it.slice.lower, ast.Constant) and it.slice.lower.value == 1 and it.slice.upper is None and it.slice.step is None:
+                return "rest"
+            return None
+        if isinstance(f, ast.Subscript) and chain(f.value) == lst and isinstance(f.slice, ast.Constant) and f.slice.value == 0:
+            return "first"
+        return None
+
+    for path, seq in walk_paths(fi):
+        took_all = all(s_.truth for s_ in path.steps if s_.kind == "loop")
+        for st, env in seq:
+            if not (isinstance(st, ast.Return) and st.value is not None):
+                continue
+            r = inline(st.value, env)
+            kinds = set()
+            for lf in leaves(r):
+                if isinstance(lf, ast.Constant) and lf.value in ((0,) if op is ast.Add else (1,)):
+                    continue
+                if isinstance(lf, ast.Call) and (chain(lf.func) or "").split(".")[-1] == "ZeroLinearOperator" and op is ast.Add:
+                    continue
+                if isinstance(lf, ast.Call):
+                    f = lf.func
+                    via_forward = False
+                    if isinstance(f, ast.Attribute) and f.attr in ("forward", "__call__"):
+                        via_forward = f.attr == "forward"
+                        f = f.value
+                    k = member_kind(f)
+                    if k is not None:
+                        nterms += 1
+                        kinds.add(k)
+                        if via_forward and not allow_forward:
+                            probs.append("member kernel is evaluated through .forward (bypassing active_dims), not through __call__")
+                        pos = [src(a) for a in lf.args]
+                        if pos[:2] != [fi.params[1], fi.params[2]]:
+                            probs.append("member kernel is evaluated on (%s), expected (%s, %s)" % (", ".join(pos[:2]), fi.params[1], fi.params[2]))
+                        kw = {k_.arg: src(k_.value) for k_ in lf.keywords}
+                        if "diag" in fi.params and kw.get("diag") != "diag":
+                            probs.append("diag is not forwarded to the member kernel")
+                        if fi.node.args.kwarg and None not in kw:
+                            probs.append("**%s is not forwarded to the member kernel" % fi.node.args.kwarg.arg)
+                        continue
+                probs.append("term `%s` of the result is neither the neutral element nor a member kernel's value" % src(lf)[:50])
+            if took_all and not ("all" in kinds or {"first", "rest"} <= kinds):
+                probs.append("the members are not all covered (no loop over %s / first + loop over the rest): %s" % (lst, sorted(kinds) or "no member term"))
+    return probs, nterms
 
 
 def _isinstance_guards(fn: ast.AST, node: ast.AST, operand: str) -> set:
@@ -102,50 +179,8 @@ def run(idx: ProgramIndex, rep: Report, tier: str):
     for cname, op, opname in (("AdditiveKernel", ast.Add, "+"), ("ProductKernel", ast.Mult, "*")):
         C = idx.cls(K, cname)
         fi = idx.method(C, "forward", own=True)
-        probs = []
-        steps = 0
-        covers_all = False
-        for n in ast.walk(fi.node):
-            if isinstance(n, ast.For):
-                it = src(n.iter)
-                if it == "self.kernels":
-                    covers_all = True
-                elif it == "self.kernels[1:]":
-                    first = [c for c in calls_in(fi.node) if isinstance(c.func, ast.Subscript) and src(c.func) == "self.kernels[0]"]
-                    covers_all = bool(first)
-                    for c in first:
-                        probs += _member_call_ok(c, {"self.kernels"}, fi)
-                var = n.target.id if isinstance(n.target, ast.Name) else None
-                # term assignments inside the loop
-                terms = {}
-                for a in ast.walk(n):
-                    if isinstance(a, ast.Assign) and isinstance(a.targets[0], ast.Name) and isinstance(_strip(a.value), ast.Call) and isinstance(_strip(a.value).func, (ast.Name, ast.Attribute)) and src(_strip(a.value).func).split(".")[0] == var:
-                        terms[a.targets[0].id] = a.value
-                        probs += _member_call_ok(a.value, {var}, fi)
-                for a in ast.walk(n):
-                    if isinstance(a, ast.Assign) and isinstance(a.targets[0], ast.Name) and a.targets[0].id == "res":
-                        steps += 1
-                        v = a.value
-                        if not (isinstance(v, ast.BinOp) and isinstance(v.op, op) and src(v.left) == "res"):
-                            probs.append("accumulation step `%s` is not `res %s <member term>`" % (norm(a)[:60], opname))
-                        else:
-                            r = _strip(v.right)
-                            if isinstance(r, ast.Name) and r.id in terms:
-                                pass
-                            elif isinstance(r, ast.Call):
-                                probs += _member_call_ok(r, {var}, fi)
-                            else:
-                                probs.append("accumulated term `%s` is not a member kernel's value" % src(v.right)[:40])
-                    if isinstance(a, ast.AugAssign) and src(a.target) == "res":
-                        steps += 1
-                        if not isinstance(a.op, op):
-                            probs.append("accumulation `%s` does not use %s" % (norm(a)[:50], opname))
-        if not covers_all:
-            probs.append("the members are not all covered (no loop over self.kernels / first + loop over the rest)")
-        rets = [r.value for r in ast.walk(fi.node) if isinstance(r, ast.Return) and r.value is not None]
-        if not all(src(r) == "res" for r in rets):
-            probs.append("forward does not return the accumulated result")
-        rep.add("C05-1", "%s:%s.forward" % (K, cname), fi.where, not probs and steps >= 1, "result %s= member(x1, x2, diag=diag, **params) for every member (%d accumulation sites)" % (opname, steps) if not probs else "; ".join(sorted(set(probs))), {})
+        probs, nterms = fold_form(fi, "kernels", op, opname, allow_forward=False)
+        rep.add("C05-1", "%s:%s.forward" % (K, cname), fi.where, not probs and nterms >= 1, "on every returning path the result is the %s-fold of member(x1, x2, diag=diag, **params) over all members (%d member terms seen)" % (opname, nterms) if not probs else "; ".join(sorted(set(probs))[:4]), {})
     Kc = idx.cls(K, "Kernel")
     for meth, comp, attr in (("__add__", "AdditiveKernel", "AdditiveKernel"), ("__mul__", "ProductKernel", "ProductKernel")):
         fi = idx.method(Kc, meth, own=True)
@@ -153,6 +188,10 @@ def run(idx: ProgramIndex, rep: Report, tier: str):
         rets = [r.value for r in ast.walk(fi.node) if isinstance(r, ast.Return) and r.value is not None]
         probs = []
         for r in rets:
+            if isinstance(r, ast.Name):
+                ds = [a_.value for a_ in ast.walk(fi.node) if isinstance(a_, ast.Assign) and len(a_.targets) == 1 and isinstance(a_.targets[0], ast.Name) and a_.targets[0].id == r.id]
+                if len(ds) == 1:
+                    r = ds[0]
             if not (isinstance(r, ast.Call) and src(r.func) == comp):
                 probs.append("returns `%s`, not %s(...)" % (src(r)[:40], comp))
                 continue
@@ -197,63 +236,58 @@ def run(idx: ProgramIndex, rep: Report, tier: str):
                         "/".join(sorted(guards)) or "composite of unknown kind", "summands" if comp == "AdditiveKernel" else "factors"))
         if splices:
             rep.add("C05-5", "%s:Kernel.%s[flattening]" % (K, meth), fi.where, not fprobs, "%d splice(s) of operand members, each under isinstance(operand, %s)" % (splices, comp) if not fprobs else "; ".join(fprobs), {"splices": splices})
-    # ScaleKernel
+    # ScaleKernel: on every returning path  <base kernel on (x1, x2, diag=diag, ...)> x <self.outputscale up to reshaping>
+    from ..symbolic import inline, walk_paths
     S = idx.find_class("ScaleKernel")
     fi = idx.method(S, "forward", own=True)
     probs = []
-    base_calls = [c for c in calls_in(fi.node) if isinstance(c.func, ast.Attribute) and chain(c.func.value) == "self.base_kernel" and c.func.attr in ("forward", "__call__") or chain(c.func) == "self.base_kernel"]
-    if len(base_calls) != 1:
-        probs.append("expected exactly one evaluation of the base kernel")
-    else:
-        c = base_calls[0]
-        if [src(a) for a in c.args[:2]] != [fi.params[1], fi.params[2]]:
-            probs.append("the base kernel is not evaluated on (x1, x2)")
-        kw = {k.arg: src(k.value) for k in c.keywords}
-        if kw.get("diag") != "diag":
-            probs.append("diag is not forwarded to the base kernel")
-    scale_src = [a for a in ast.walk(fi.node) if isinstance(a, ast.Assign) and isinstance(a.targets[0], ast.Name) and a.targets[0].id == "outputscales"]
-    if not scale_src or src(scale_src[0].value) != "self.outputscale":
-        probs.append("the scale is not the constrained self.outputscale")
-    for r in [r.value for r in ast.walk(fi.node) if isinstance(r, ast.Return) and r.value is not None]:
-        ok = (isinstance(r, ast.BinOp) and isinstance(r.op, ast.Mult) and {src(_strip(r.left)), src(_strip(r.right))} == {"orig_output", "outputscales"}) or \
-             (isinstance(r, ast.Call) and isinstance(r.func, ast.Attribute) and r.func.attr in ("mul", "mul_") and src(_strip(r.func.value)) == "orig_output" and src(r.args[0]) == "outputscales")
-        if not ok:
-            probs.append("returns `%s`, expected base value x outputscale" % src(r)[:60])
-    # outputscales only reshaped in between
-    for a in scale_src[1:]:
-        v = a.value
-        if not (isinstance(v, ast.Call) and isinstance(v.func, ast.Attribute) and v.func.attr in ("unsqueeze", "view", "reshape") and src(v.func.value) == "outputscales"):
-            probs.append("the scale is modified by `%s` (only reshaping is allowed)" % norm(a)[:60])
-    rep.add("C05-2", "%s:ScaleKernel.forward" % S.module.name, fi.where, not probs, "base kernel value (same inputs, diag forwarded) times the reshaped constrained outputscale" if not probs else "; ".join(sorted(set(probs))), {})
+    nret = 0
+    RESHAPE = ("unsqueeze", "view", "reshape", "expand", "to", "contiguous")
+    for path, seq in walk_paths(fi):
+        for st, env in seq:
+            if not (isinstance(st, ast.Return) and st.value is not None):
+                continue
+            nret += 1
+            r = inline(st.value, env)
+            if isinstance(r, ast.BinOp) and isinstance(r.op, ast.Mult):
+                fa, fb = r.left, r.right
+            elif isinstance(r, ast.Call) and isinstance(r.func, ast.Attribute) and r.func.attr in ("mul", "mul_") and len(r.args) == 1:
+                fa, fb = r.func.value, r.args[0]
+            else:
+                probs.append("returns `%s`, expected base value x outputscale" % src(st.value)[:60])
+                continue
+            base = scale = None
+            for f in (fa, fb):
+                g = _strip(f)
+                if isinstance(g, ast.Call) and ((isinstance(g.func, ast.Attribute) and chain(g.func.value) == "self.base_kernel" and g.func.attr in ("forward", "__call__")) or chain(g.func) == "self.base_kernel"):
+                    base = g
+                else:
+                    h = f
+                    while isinstance(h, ast.Call) and isinstance(h.func, ast.Attribute) and h.func.attr in RESHAPE:
+                        h = h.func.value
+                    if chain(h) == "self.outputscale":
+                        scale = h
+                    elif chain(h) in ("self.raw_outputscale",):
+                        probs.append("the scale is the raw parameter, not the constrained self.outputscale")
+                        scale = h
+            if base is None:
+                probs.append("no factor of `%s` is the base kernel's value" % src(st.value)[:50])
+            else:
+                if [src(x) for x in base.args[:2]] != [fi.params[1], fi.params[2]]:
+                    probs.append("the base kernel is not evaluated on (x1, x2)")
+                kw = {k.arg: src(k.value) for k in base.keywords}
+                if kw.get("diag") != "diag":
+                    probs.append("diag is not forwarded to the base kernel")
+            if scale is None:
+                probs.append("no factor of `%s` is self.outputscale up to reshaping (the scale is modified or is not the constrained value)" % src(st.value)[:50])
+    if nret == 0:
+        probs.append("no returning path")
+    rep.add("C05-2", "%s:ScaleKernel.forward" % S.module.name, fi.where, not probs, "base kernel value (same inputs, diag forwarded) times the reshaped constrained outputscale on %d returning path(s)" % nret if not probs else "; ".join(sorted(set(probs))), {})
     # LCM
     L = idx.find_class("LCMKernel")
     fi = idx.method(L, "forward", own=True)
-    t = norm(fi.node)
-    probs = []
-    first = "res = self.covar_module_list[0].forward(%s, %s, **params)" % (fi.params[1], fi.params[2]) in t or "res = self.covar_module_list[0](%s, %s, **params)" % (fi.params[1], fi.params[2]) in t
-    loop = [n for n in ast.walk(fi.node) if isinstance(n, ast.For) and src(n.iter) == "self.covar_module_list[1:]"]
-    allloop = [n for n in ast.walk(fi.node) if isinstance(n, ast.For) and src(n.iter) == "self.covar_module_list"]
-    if not ((first and loop) or allloop):
-        probs.append("not all member kernels are covered")
-    for n in loop + allloop:
-        accs = [a for a in ast.walk(n) if (isinstance(a, ast.AugAssign) and src(a.target) == "res") or (isinstance(a, ast.Assign) and src(a.targets[0]) == "res")]
-        for a in accs:
-            if isinstance(a, ast.AugAssign):
-                if not isinstance(a.op, ast.Add):
-                    probs.append("members are combined with `%s`, not +" % norm(a)[:40])
-                term = a.value
-            else:
-                v = a.value
-                if not (isinstance(v, ast.BinOp) and isinstance(v.op, ast.Add) and src(v.left) == "res"):
-                    probs.append("members are not summed: `%s`" % norm(a)[:40])
-                    continue
-                term = v.right
-            tc = _strip(term)
-            if not (isinstance(tc, ast.Call) and [src(x) for x in tc.args[:2]] == [fi.params[1], fi.params[2]]):
-                probs.append("member term `%s` is not the member kernel on (x1, x2)" % src(term)[:40])
-        if not accs:
-            probs.append("loop does not accumulate")
-    rep.add("C05-3", "%s:LCMKernel.forward" % L.module.name, fi.where, not probs, "sum over all member multitask kernels on the same inputs" if not probs else "; ".join(sorted(set(probs))), {})
+    probs, nterms = fold_form(fi, "covar_module_list", ast.Add, "+", allow_forward=True)
+    rep.add("C05-3", "%s:LCMKernel.forward" % L.module.name, fi.where, not probs and nterms >= 1, "sum over all member multitask kernels on the same inputs" if not probs else "; ".join(sorted(set(probs))[:4]), {})
 
     from .common_alias import aliasing_obligations
     funcs = []
